@@ -132,6 +132,20 @@ def list_case(seed):
                  el("w:style", [("w:type", "paragraph"), ("w:styleId", "ListPara")], [el("w:name", [("w:val", "List Paragraph")])]),
                  el("w:style", [("w:type", "numbering"), ("w:styleId", "ListNum")], [el("w:pPr", [], [el("w:numPr", [], [el("w:numId", [("w:val", "1")])])])]),
                  el("w:style", [("w:type", "numbering"), ("w:styleId", "ListNum2")], [el("w:pPr", [], [el("w:numPr", [], [el("w:numId", [("w:val", "3")])])])])])
+    # the OPTIONAL children the schema allows in numbering.xml / styles.xml (gen_optional): w:aliases & co. on the paragraph styles
+    # (heading styles by name included), w:lvlOverride of every shape - including a w:lvl of ANOTHER kind - on the w:num elements
+    # (the twins share their abstractNum with 1 / 2).  None of it changes what the library resolves.  Own generator: the
+    # paragraphs of a seed stay what they were.  The numbering styles are left alone (their w:numId decides the link target).
+    orng = random.Random(seed * 131 + 11)
+    if orng.random() < 0.5:
+        from gen_optional import numbering_optional, styles_optional
+        if orng.random() < 0.75:
+            feats.update("opt-" + f for f in numbering_optional(orng, numbering, 0.7))
+        if orng.random() < 0.75:
+            pstyles = el("w:styles", [], [s for s in styles[2] if dict((k, v) for k, v in s[1]).get("w:type") != "numbering"])
+            rest = [s for s in styles[2] if dict((k, v) for k, v in s[1]).get("w:type") == "numbering"]
+            feats.update("opt-" + f for f in styles_optional(orng, pstyles, 0.6))
+            styles[2][:] = pstyles[2] + rest
     where = rng.choice(["body", "body", "cell", "note"])
     rels = []
     parts = [{"name": "word/styles.xml", "xml": styles}, {"name": "word/numbering.xml", "xml": numbering}]
